@@ -80,7 +80,7 @@ def run(ctx):
                 'HistoryIndependent, RootIdentity. distinct = distinct (kind, field, form, entry point, pattern, outcome)')
     ctx.assumptions += ['correspondence between edited and fresh tree is by child path (pure-AST walk)',
                         'fresh tree built with the same root.indent (documented creation-time attribute)',
-                        'f-string internals excluded']
+                        'f-string format specs are not edited (replacement fields are, by fv_replace events; all f-string nodes are observed)']
     # views: state machine of FSTView windows (re-clipping after foreign edits, extents after edits through the view)
     views_part.run_views(ctx, n_quick=150, n_thorough=800)
     from corpus.programs import PROGRAMS
